@@ -619,7 +619,8 @@ fn run_same(ws: &[&str]) -> String {
         let base = format!("http://127.0.0.1:{}", port);
         let client = BasicClient::new(ClientId::new("aaa".to_string()))
             .set_client_secret(ClientSecret::new("bbb".to_string()))
-            .set_token_uri(TokenUrl::new(format!("{}/token", base)).unwrap())
+            // (the endpoint is configured in a spelling that is not the parsed URL's: what reaches the wire is the parsed URL's target)
+            .set_token_uri(TokenUrl::new(format!("{}/oauth/../token?tenant=a%20b", base.replace("http://", "HTTP://"))).unwrap())
             .set_introspection_url(IntrospectionUrl::new(format!("{}/introspect", base)).unwrap())
             .set_device_authorization_url(DeviceAuthorizationUrl::new(format!("{}/device", base)).unwrap())
             // (revocation is https-only: the request is prepared for an https URL and redirected to the scripted server by the client below)
@@ -743,10 +744,15 @@ fn run_same(ws: &[&str]) -> String {
         }
     });
     let _ = done_tx.send(());
-    let _ = server.join();
+    let seen = server.join().unwrap_or_default();
     for (h, tx) in pre_servers {
         let _ = tx.send(());
         let _ = h.join();
+    }
+    if matches!(ws[1], "code" | "refresh" | "devpoll" | "devpoll_async") {
+        if let Some(bad) = seen.iter().find(|s| s.target != "/token?tenant=a%20b" || s.method != "POST") {
+            return format!("target-on-the-wire-differs {} {}", bad.method, tok_bytes(bad.target.as_bytes()));
+        }
     }
     match out {
         Ok(s) => s,
